@@ -78,6 +78,9 @@ def part_pool(ctx):
             for fate in ("result", "pop", "in_list"):
                 pool.append(gen.apply_fate(gen.make_call("GLOBAL", c, m, n, ["x"]), fate))
     pool.append(b"(K\x01ivp_sink\nK\n.")
+    # equal-but-differently-written arguments inside one pickle (True / 1 at protocol 0, 0.0 / -0.0, padded LONG1)
+    pool += [pickle.dumps([True, 1, False, 0], 0), pickle.dumps([1, True, 0, False], 0), pickle.dumps([0.0, -0.0, 0.0], 2),
+             b"(I1\nI01\nI1\nl.", b"(\x8a\x01\x05\x8a\x02\x05\x00\x8a\x01\x05t."]
     pool.append(b"\x8c\x03pid\x94Q.")
     return pool
 
